@@ -391,6 +391,7 @@ structure CycIn where
   cands     : List CandIn
   chosen    : Nat    -- the reservation the implementation nominated; ONLY used to resolve a tie of >= 2 passing candidates
   unreserve : Bool
+  preBind   : Bool := false   -- PreBind runs after a successful Reserve (before the roll-back, if any)
 
 def candOf (x : CycIn) (u : Nat) : CandIn :=
   match x.cands.find? (fun k => k.uid == u) with
@@ -507,5 +508,48 @@ def reserveM (c : Cache) (x : CycIn) (u : Nat) : Cache × Nat :=
 /-- Unreserve: forgetPods on the assumed reservation -/
 def unreserveM (c : Cache) (x : CycIn) (u : Nat) (rsvCode : Nat) : Cache :=
   if u != 0 && rsvCode == 0 then deletePods c u [x.pod.uid] else c
+
+/-! ### roll-back of a cycle at every stage: PreBind, Unreserve (normal-pod and reserve-pod branch), and Reserve of a
+    RESERVE pod (the reservation's own scheduling cycle).  plugin.go PreBind / Unreserve / Reserve. -/
+
+/-- Plugin.PreBind of a normal pod: `state.assumed == nil` => Unschedulable if the state still says the pod has a
+    reservation affinity, else nil; otherwise `state.hasReservationAllocated = true` and the pod gets the
+    reservation-allocated annotation of the assumed reservation.
+    Result: (status, uid written into the annotation (0 = none), hasReservationAllocated). -/
+def preBindM (assumed : Nat) (hasAff : Bool) : Nat × Nat × Bool :=
+  if assumed == 0 then (if hasAff then 1 else 0, 0, false) else (0, assumed, true)
+
+/-- Plugin.Unreserve, normal-pod branch AS WRITTEN: nothing assumed (`state.assumed == nil`: Reserve failed or
+    nominated nothing) => nothing to do; otherwise forgetPods on the assumed reservation FIRST, and only then the
+    `!state.hasReservationAllocated` early return, which guards nothing but the removal of the annotation written in
+    PreBind (an API patch, no cache state).  `hoisted := true` is the shape with that return placed above forgetPods,
+    kept for the counterexample. -/
+def unreserveG (hoisted : Bool) (c : Cache) (assumed : Nat) (hasAllocated : Bool) (podUid : Nat) : Cache :=
+  if assumed == 0 then c
+  else if hoisted && !hasAllocated then c
+  else deletePods c assumed [podUid]
+
+def unreservePodM (c : Cache) (assumed : Nat) (hasAllocated : Bool) (podUid : Nat) : Cache :=
+  unreserveG false c assumed hasAllocated podUid
+
+/-- Plugin.Reserve, reserve-pod branch (no pre-allocation): `rLister.Get`; a miss is an error and nothing is assumed;
+    otherwise assumeReservation (= updateReservation) of a deep copy with `Status.NodeName = nodeName`.
+    status 0 = success, 3 = error -/
+def reserveRsvM (c : Cache) (listed : Option RObj) (n : Nat) : Cache × Nat :=
+  match listed with
+  | none => (c, 3)
+  | some o => (updateReservation c { o with node := n }, 0)
+
+/-- Plugin.Unreserve, reserve-pod branch AS WRITTEN: forgetReservation (= DeleteReservation, keyed by the node name
+    of the PASSED object) of a deep copy of the lister's object stamped with `Status.NodeName = nodeName`; when the
+    lister misses, of a stub {UID: pod.UID, Status.NodeName: nodeName} (a reserve pod carries the reservation's uid).
+    `stamped := false` is the shape that passes the lister's object as it is (its node name is still ""), kept for
+    the counterexample. -/
+def unreserveRsvG (stamped : Bool) (c : Cache) (listed : Option RObj) (podUid n : Nat) : Cache :=
+  match listed with
+  | none => deleteReservation c podUid n
+  | some o => deleteReservation c o.uid (if stamped then n else o.node)
+
+def unreserveRsvM (c : Cache) (listed : Option RObj) (podUid n : Nat) : Cache := unreserveRsvG true c listed podUid n
 
 end KoordVerif.C05
